@@ -293,3 +293,35 @@ Theorem C16_comments_inserted_parse : forall inc incfuel ta cs tb,
   prelD (parse_program (parse_fuel (length (ta ++ tb))) incfuel inc (ta ++ tb))
         (parse_program (parse_fuel (length (ta ++ cs ++ tb))) incfuel inc (ta ++ cs ++ tb)).
 Proof. exact parse_comments_inserted. Qed.
+
+(** Moving a run of statements into an included file, ON SOURCE TEXT through the whole pipeline:
+    [a], [run], [b] texts of complete lines, [L] the line [.include 'p'] and the file [p] holding
+    [run].  When the text with the include line assembles, the text with the run in place assembles
+    to the same blocks, the same labels and the same symbol tables.  [a] and [run] are runs of
+    complete top-level statements ([parses_alone]); since the grammar has no end-of-statement token,
+    the first token of [run ++ b] and of [b] must not be one a preceding statement would continue
+    with ([inert]: no operator, comma, index, size, parenthesis, closing brace, nor the word "else" —
+    each excluded case is an actual counterexample on the model, Proofs/IncludeMove4.v MoveExamples),
+    nor an identifier right after a [.map].  Only this direction holds in general: the included
+    form spends one more level of nesting and of include depth than the in-place form. *)
+From A816 Require Import Proofs.IncludeMove1 Proofs.IncludeMove2 Proofs.IncludeMove4.
+Theorem C16_include_moved_source : forall t fs c fname a run b L p Ta ea la Tr ep lr Tb eb lb pa pr o fin,
+  lexicon_ok (lv_lex t) = true ->
+  ends_nl a -> ends_nl run ->
+  scan (lv_lex t) fname a = ScanOk (Ta ++ [ea]) la ->
+  scan (lv_lex t) p run = ScanOk (Tr ++ [ep]) lr ->
+  scan (lv_lex t) fname b = ScanOk (Tb ++ [eb]) lb ->
+  include_line (lv_lex t) fname L p ->
+  assoc_str (sf_text fs) p = Some run ->
+  parses_alone t fs include_depth (Ta ++ [ea]) pa ->
+  parses_alone t fs (pred include_depth) (Tr ++ [ep]) pr ->
+  inert (cur (Tr ++ Tb ++ [eb]) 0) -> inert (cur (Tb ++ [eb]) 0) ->
+  (last_is_map pa = true -> is_ty (cur (Tr ++ Tb ++ [eb]) 0) T_IDENTIFIER = false) ->
+  (last_is_map pr = true -> is_ty (cur (Tb ++ [eb]) 0) T_IDENTIFIER = false) ->
+  assemble_source t fs c fname (a ++ L ++ b) = AOk o fin ->
+  exists o' fin',
+    assemble_source t fs c fname (a ++ run ++ b) = AOk o' fin' /\
+    o_blocks o' = o_blocks o /\ o_labels o' = o_labels o /\ same_symbols fin fin'.
+Proof. exact include_moved_source. Qed.
+
+Print Assumptions C16_include_moved_source.
